@@ -318,6 +318,16 @@ fn live(assign: &[usize; 3], order: usize, mode: usize, sync: bool, salted: bool
         held.push((-2, b"mine (older)".to_vec()));
     }
     let want = held.iter().map(|h| h.0).max().map(|m| (m, held.iter().filter(|h| h.0 == m).map(|h| h.1.clone()).max().expect("max")));
+    // what comes back is one of the items that were delivered, whole: its signature covers its value
+    if let Some(CallResult::Mutable(Some(i))) = w.result(call) {
+        if i.key() != &pk || !crate::krpc::verify_mutable(i.key(), i.seq(), i.value(), salt, i.signature()) {
+            out.violation(
+                format!("most-recent/live/returned-item-not-authentic{}", if salted { "/salted" } else { "" }),
+                format!("{}get_mutable_most_recent returned seq {} value {:?} under a signature that does not cover them (replicas hold versions {:?}, arrival order #{order})", if sync { "[blocking Dht API] " } else { "" }, i.seq(), String::from_utf8_lossy(i.value()), assign),
+                json!({"part": "live", "assign": assign, "order": order, "mode": mode, "sync": sync, "salted": salted}),
+            );
+        }
+    }
     let got = match w.result(call) {
         Some(CallResult::Mutable(r)) => r.as_ref().map(|i| (i.seq(), i.value().to_vec())),
         other => {
